@@ -57,8 +57,15 @@ type vfEnv struct {
 
 func (e vfEnv) Twice(x int) int {
 	vfLog = append(vfLog, vfCall{"Twice", x, 0})
-	return vfUFInt("Twice", x)
+	r := vfUFInt("Twice", x)
+	if vfSmallInts {
+		vfAssume(r >= -1 && r <= 3)
+	}
+	return r
 }
+
+// vfSmallInts: the template contains a run-time range, so every int that can become a bound is kept small
+var vfSmallInts bool
 
 func (e *vfEnv) PtrAdd(x int) int {
 	vfLog = append(vfLog, vfCall{"PtrAdd", x, 0})
@@ -73,6 +80,7 @@ func vfMakeEnv(src string, maxLen int) *vfEnv {
 	e := &vfEnv{}
 	uses := func(name string) bool { return strings.Contains(src, name) }
 	small := uses("..")
+	vfSmallInts = small
 	bound := func(x int) int {
 		if small {
 			// run-time ranges are unrolled: every int that can become a range bound stays small
